@@ -504,6 +504,10 @@ pub fn run_history(w: i32, h: i32, init: &[u32], units: &[Unit], st: &mut Stats,
     st.add("calls_executed", idx as u64);
 }
 
+fn tri(a: (f32, f32), b: (f32, f32), c: (f32, f32)) -> Path {
+    Path { ops: vec![PathOp::MoveTo(Point::new(a.0, a.1)), PathOp::LineTo(Point::new(b.0, b.1)), PathOp::LineTo(Point::new(c.0, c.1)), PathOp::Close], winding: Winding::NonZero }
+}
+
 pub fn run(ctx: &Ctx) -> Outcome {
     let mut out = Outcome::new(
         "long random call histories (fills, strokes, fill_rect, clear, mask, clip pushes/pops incl. off-surface clip paths, transform changes incl. singular and far translations, layer groups; biased towards calls that draw nothing and towards followers that expose leftovers: paths starting with LineTo/QuadTo/CubicTo/Close, full-height polygons, tall/short alternation) on one DrawTarget; \
@@ -541,6 +545,55 @@ pub fn run(ctx: &Ctx) -> Outcome {
         }
         co
     });
+    // counts of calls that wrap: one fill touches the middle rows, then 250..261 (in the thorough tier also 65 530..65 541)
+    // fills that stay away from them, then a fill whose bounds span the middle rows without covering them. Whatever a
+    // target remembers per row or per call under a small counter comes round in between.
+    if !ctx.miri {
+        let reps: Vec<u64> = if ctx.quick() { (250..262).collect() } else { (250..262).chain(65_530..65_542).chain(508..516).collect() };
+        run_cases(ctx, &mut out, SubSpec { name: "hundreds_of_calls_between_two_related_ones", cases: reps.len() as u64 * 2, exhaustive: false, max_secs: if ctx.quick() { 60. } else { 900. } }, |i, want, st| {
+            let mut rng = ctx.rng("hundreds_of_calls_between_two_related_ones", i);
+            let n = reps[(i as usize) % reps.len()];
+            let aa = i as usize / reps.len() == 0 || rng.chance(0.5);
+            let (w, h) = (rng.int(12, 20) as i32, 24);
+            let init = canary(&mut rng, (w * h) as usize);
+            let o = |rng: &mut Rng| DrawOptions { blend_mode: BlendMode::SrcOver, alpha: 1., antialias: if aa || rng.chance(0.5) { AntialiasMode::Gray } else { AntialiasMode::None } };
+            let solid = |rng: &mut Rng| SrcSpec::Solid(premul_pixel(rng));
+            let mut units: Vec<Unit> = Vec::new();
+            // the middle rows, with partial coverage
+            units.push(Unit::One(Op::Fill(tri((1.5, 8.3), (w as f32 - 1.5, 9.1), (w as f32 / 2., 15.6)), solid(&mut rng), o(&mut rng))));
+            for k in 0..n {
+                let y0 = (k % 4) as f32 + 0.25;
+                units.push(Unit::One(Op::Fill(tri((1. + (k % 7) as f32, y0), (6. + (k % 5) as f32, y0 + 0.5), (3., y0 + 2.5)), solid(&mut rng), o(&mut rng))));
+            }
+            // bounds from row 1 to row 22, nothing between rows 7 and 17
+            let mut ops = tri((2., 1.2), (w as f32 - 2., 2.), (w as f32 / 2., 6.5)).ops;
+            ops.extend(tri((2., 17.5), (w as f32 - 2., 18.), (w as f32 / 2., 22.4)).ops);
+            units.push(Unit::One(Op::Fill(Path { ops, winding: Winding::NonZero }, solid(&mut rng), o(&mut rng))));
+            let mut co = CaseOut::default();
+            co.hash = crate::prng::hash_u64s(&[i, n, w as u64]);
+            let mut steer = ctx.rng("steer2", i);
+            let res = guarded(|| {
+                let mut co2 = CaseOut::default();
+                run_history(w, h, &init, &units, st, &mut co2, &mut steer);
+                co2
+            });
+            st.add("histories_with_hundreds_of_calls_between_two_related_ones", 1);
+            match res {
+                Ok(c2) => {
+                    co.nontrivial = true;
+                    co.violations = c2.violations;
+                }
+                Err(p) => co.viol("C10", format!("panic during the history: {}", p)),
+            }
+            if want || !co.violations.is_empty() {
+                let mut d = J::obj();
+                d.set("surface", J::s(&format!("{}x{}", w, h)));
+                d.set("fills_in_between", J::Int(n as i64));
+                co.desc = Some(d);
+            }
+            co
+        });
+    }
     out.assume("clip paths are re-pushed on the twin pre-transformed under the identity (C11's bit-identity of fill(path) under T and fill(path.transform(T)) under the identity)");
     out.assume("the verif_state hook only steers the workload; every verdict comes from pixels");
     out
